@@ -41,7 +41,7 @@ type c14In struct {
 
 type c14 struct{}
 
-func init() { register(c14{}) }
+func init() { register(c14Prop{}) } // composite, see c14b.go
 
 func (c14) ID() string    { return "C14" }
 func (c14) RunFn() string { return "run_C14" }
